@@ -126,6 +126,18 @@ CHECKS = {
     design_ref="DESIGN.md section 4 / C11",
     technique="Coq proof of parse-after-print over a model of printer and parser + operator table regenerated from source + token correspondence + whole-program oracle on the implementation",
     note="Trusted: Coq kernel + vm_compute; tools/srcparams.py; harness tokeniser. Rendering of non-expression constructs is not modelled."),
+ "C12": dict(
+    category="proof",
+    text="PARTIAL proof. Proved in Coq (axiom-free), for inputs of any size: (1) the text Exp's Display emits for an arithmetic expression of a compiled model is read back by the parser as exactly that expression "
+         "(parenthesisation over the printers' table, REGENERATED from math/operators.rs, which is proved to order all 81 operator pairs like the parser's table regenerated from exp_parser.rs); "
+         "(2) the left-hand side LinearModel's Display emits for a row (signs, magnitudes glued to names) is read back as a tree whose value is the row's linear form at every assignment. "
+         "Tie on every run: tokens of the real renderings (all operator pairs/triples, random trees, every rendered row) must equal the model printers' and re-parse in the model to the same tree. "
+         "The rest of the property is evaluated on the implementation: programs written by the generator's own printer go through parse + type-check + transform; the Model text and the LinearModel text must parse, type-check and "
+         "compile to the same linear model (rows, coefficients, rhs, objective, offset, domains, up to row order), and the linear text must be a fixed point. Eleven genuine defects repaired (parentheses, `solve`, `--4`, boolean literals, "
+         "empty `s.t.`, sign of tiny coefficients, mixed-type compound families, negative literals, huge integers); four harmless renormalisation classes are recorded as known findings F24, F30, F31, F32.",
+    design_ref="DESIGN.md section 4 / C12",
+    technique="Coq proof of parse-after-print for expressions and linear rows + two operator tables regenerated from source + token correspondence + re-compilation oracle on the implementation",
+    note="Trusted: Coq kernel + vm_compute; tools/srcparams.py; harness tokenisers and source printer. Number/name/domain rendering and the type checker are not modelled."),
  "C17": dict(
     category="proof",
     text="PARTIAL proof. to_lp_format is modelled at token level (lp_terms, lp_num, lp_bound, sections, generated row names) and an independently written reader of the CPLEX-LP subset lives in Coq. "
